@@ -131,7 +131,7 @@ pub fn choices_to_string(p: &[Choice]) -> String {
         .iter()
         .enumerate()
         .filter(|(_, c)| c.chosen != 0)
-        .map(|(i, c)| format!("{}:{}/{}", i, c.chosen, c.n))
+        .map(|(i, c)| format!("{}{}:{}/{}", if c.free { "f" } else { "" }, i, c.chosen, c.n))
         .collect();
     format!("len={} dev=[{}]", p.len(), devs.join(" "))
 }
@@ -168,6 +168,10 @@ pub fn fingerprint(r: &ExecResult) -> String {
 }
 
 fn deviations(p: &[Choice]) -> usize {
+    p.iter().filter(|c| c.chosen != 0 && !c.free).count()
+}
+
+fn nondefault(p: &[Choice]) -> usize {
     p.iter().filter(|c| c.chosen != 0).count()
 }
 
@@ -354,16 +358,17 @@ impl Dfs<'_> {
                     None => break None,
                     Some(c) => {
                         let devs_before = deviations(&p);
-                        let room = bound.is_none_or(|b| devs_before < b);
+                        let room = c.free || bound.is_none_or(|b| devs_before < b);
                         let nxt = ((c.chosen as usize + 1)..(c.n as usize)).find(|j| *j >= 64 || c.asleep & (1u64 << j) == 0);
                         if let (Some(nxt), true) = (nxt, room) {
                             let cand = Choice {
                                 chosen: nxt as u16,
                                 n: c.n,
-                                who: u32::MAX - 1,
+                                who: if c.who == u32::MAX { u32::MAX } else { u32::MAX - 1 },
                                 asleep: c.asleep,
+                                free: c.free,
                             };
-                            if devs_before == 0 && !in_shard(p.len(), cand.chosen, job.shard) {
+                            if nondefault(&p) == 0 && !in_shard(p.len(), cand.chosen, job.shard) {
                                 // someone else's subtree: keep incrementing at this position
                                 p.push(cand);
                                 continue;
